@@ -9,11 +9,11 @@ EXEC_T = ["Value", "ValueAsync", "ValueT"]
 
 
 class Model:
-    def __init__(self, derive, execs):
-        self.derive, self.execs = derive, execs
+    def __init__(self, derive, execs, roots=(1, 1, 1, 0)):
+        self.derive, self.execs, self.roots = derive, execs, roots
 
     def fresh(self):
-        return streams.World(1, 1, 1)
+        return streams.World(*self.roots)
 
     def enabled(self, w):
         ops = []
@@ -21,8 +21,9 @@ class Model:
             if not w.terminal[i]:
                 for d in self.derive:
                     ops.append((d, i, (("a", 1),)) if d == "QMD" else (d, i))
-            for e in self.execs:
-                ops.append((e, i))
+            if not w.rootless[w.root[i]]:  # a stream without a dataset cannot be executed
+                for e in self.execs:
+                    ops.append((e, i))
         return ops
 
     def op_name(self, op):
@@ -73,7 +74,8 @@ class C11(Check):
     def spaces(self, tier):
         Q = tier == "quick"
         out = []
-        plan = [("quick", 3, 1), ("mut", 3, 1)] if Q else [("quick", 4, 2), ("wide", 3, 1), ("narrow", 5, 2), ("mut", 4, 2)]
+        plan = [("quick", 3, 1), ("mut", 3, 1), ("astargs", 3, 1)] if Q else \
+            [("quick", 4, 2), ("wide", 3, 1), ("narrow", 5, 2), ("mut", 4, 2), ("astargs", 4, 2)]
         for mname, depth, plen in plan:
             m = self._model(mname)
             out.append(Space(f"histories<={depth}:{mname}", {"depth": depth, "menu": m.derive + m.execs, "roots": 2},
@@ -86,7 +88,9 @@ class C11(Check):
         library keeps per process (parse caches, interned nodes) is then seen in its initial condition"""
         m = self._model("quick")
         m2 = self._model("mut")
+        m3 = self._model("astargs")
         return [("pristine", "run_prefix", ("quick", 2, p)) for p in _prefixes(m, 1)] + \
+               [("pristine", "run_prefix", ("astargs", 2, p)) for p in _prefixes(m3, 1) if "AstSame" in p[0][0]] + \
                [("pristine", "run_prefix", ("mut", 2, p)) for p in _prefixes(m2, 1) if p[0][0] in ("SelectMod", "ValueMut")]
 
     def _model(self, name):
@@ -97,6 +101,9 @@ class C11(Check):
         if name == "mut":
             # a lambda handed over as ONE Module-wrapped AST; an executor that edits the tree it receives in place
             return Model(["Select", "SelectSame", "SelectMod", "SelectAstSame", "MD0", "QMD"], ["Value", "ValueMut"])
+        if name == "astargs":
+            # ONE user-held AST per operator, handed to streams with and without a dataset, typed and untyped
+            return Model(["SelectAstSame", "WhereAstSame", "SelectManyAstSame", "SelectMod", "Select"], ["Value"], roots=(1, 1, 0, 2))
         if name == "wide":
             return Model(DERIVE_T, EXEC_T)
         raise ValueError(name)
@@ -119,7 +126,12 @@ class C11(Check):
         try:
             canon = viol["canon"].split("|")[-1]
             hist = _ast.literal_eval(canon)
-            return streams.history_code((1, 1, 1), hist)
+            roots = (1, 1, 1)
+            try:
+                roots = self._model(payload[0] if not isinstance(payload[0], tuple) else "quick").roots
+            except Exception:
+                pass
+            return streams.history_code(roots, hist)
         except Exception:
             return None
 
